@@ -419,7 +419,7 @@ Definition finish (l : list cand) : list cand := dedup_ids [] (hide_filter l).
 Definition cbind (r : cres) (f : list cand -> cres) : cres := match r with COk l => f l | other => other end.
 Definition of_opt (site : N) (o : option (list cand)) : cres := match o with Some l => COk l | None => CPanic site end.
 
-(** [complete_arg] in state [ValueDone] *)
+(** [complete_arg] in state [ValueDone] (before the repair of finding C18-args-conflict; see [complete_arg_v]) *)
 Definition complete_arg_value_done (tbl : pvtable) (arg : bytes) (c : cmd) (pos_index : N) : cres :=
   let subs := if utf8_valid arg then complete_subcommand arg c else [] in
   cbind (match find_pos c pos_index with
@@ -445,6 +445,37 @@ Definition complete_arg (tbl : pvtable) (arg : bytes) (c : cmd) (pos_index : N) 
       cbind (of_opt 535 (complete_arg_value tbl arg o)) (fun optv =>
       let min := match a_num o with Some r => vmin r | None => 0 end in
       cbind (if min <? count then complete_arg_value_done tbl arg c pos_index else COk []) (fun more =>
+      COk (finish (optv ++ more))))
+  end.
+
+(** [complete_arg] with the argument [valid_arg_found] (repair of finding C18-args-conflict): like the real parser, no
+    subcommand is offered behind an argument of a command whose arguments conflict with subcommands.  The function
+    above is the code before the repair and this function with the flag off. *)
+Definition complete_arg_value_done_v (tbl : pvtable) (arg : bytes) (c : cmd) (pos_index : N) (valid_arg_found : bool) : cres :=
+  let maybe_subcommand := negb (is_set s_args_negate_subs c && valid_arg_found) in
+  let subs := if utf8_valid arg && maybe_subcommand then complete_subcommand arg c else [] in
+  cbind (match find_pos c pos_index with
+         | Some p => of_opt 535 (complete_arg_value tbl arg p)
+         | None => COk [] end) (fun posv =>
+  cbind (complete_option tbl arg c) (fun opts =>
+  COk (finish (subs ++ posv ++ opts)))).
+
+Definition complete_arg_v (tbl : pvtable) (arg : bytes) (c : cmd) (pos_index : N) (st : pstate) (valid_arg_found : bool) : cres :=
+  match st with
+  | ValueDone => complete_arg_value_done_v tbl arg c pos_index valid_arg_found
+  | Pos _ num_arg =>
+      match find_pos c pos_index with
+      | Some p =>
+          cbind (of_opt 535 (complete_arg_value tbl arg p)) (fun posv =>
+          cbind (if match a_num p with Some r => vmin r <=? num_arg | None => false end
+                 then complete_option tbl arg c else COk []) (fun opts =>
+          COk (finish (posv ++ opts))))
+      | None => COk (finish [])
+      end
+  | Opt o count =>
+      cbind (of_opt 535 (complete_arg_value tbl arg o)) (fun optv =>
+      let min := match a_num o with Some r => vmin r | None => 0 end in
+      cbind (if min <? count then complete_arg_value_done_v tbl arg c pos_index valid_arg_found else COk []) (fun more =>
       COk (finish (optv ++ more))))
   end.
 
@@ -501,31 +532,39 @@ Definition find_long_visible (c : cmd) (flag : bytes) : option arg :=
     where the cursor reaches the target: where the shadow parse stands when [complete_arg] is called *)
 Inductive walk :=
 | WPanic (site : N) | WFuel | WEnd
-| WAt (arg : bytes) (cur : cmd) (pos_index : N) (st : pstate) (is_escaped : bool).
+| WAt (arg : bytes) (cur : cmd) (pos_index : N) (st : pstate) (is_escaped : bool) (valid_arg_found : bool).
 
-(** one iteration of the loop body after the cursor test: new (cmd, pos_index, is_escaped, state) *)
-Inductive step := SPanic (site : N) | SFuel | SNext (cur : cmd) (pos_index : N) (is_escaped : bool) (st : pstate).
+(** one iteration of the loop body after the cursor test: new (cmd, pos_index, is_escaped, state, valid_arg_found) *)
+Inductive step := SPanic (site : N) | SFuel
+| SNext (cur : cmd) (pos_index : N) (is_escaped : bool) (st : pstate) (valid_arg_found : bool).
 
-Definition shadow_step (arg : bytes) (cur : cmd) (pos_index : N) (is_escaped : bool) (current_state : pstate) : step :=
+(** [valid_arg_found]: like the real parser's flag of the same name - an argument of [cur] was seen (an option,
+    a cluster of known flags, a positional value); it starts afresh in every subcommand.  On a command whose
+    arguments conflict with subcommands a word behind such an argument is not looked up as a subcommand
+    (repair of finding C18-args-conflict; the code before it: [shadow_step_before_fix]) *)
+Definition shadow_step (arg : bytes) (cur : cmd) (pos_index : N) (is_escaped : bool) (current_state : pstate)
+           (valid_arg_found : bool) : step :=
   let positional :=
     match parse_positional cur pos_index is_escaped current_state with
-    | Some (st, pi) => SNext cur pi is_escaped st
+    | Some (st, pi) => SNext cur pi is_escaped st true
     | None => SPanic 673
     end in
   (* like the real parser, a value of a pending option or of a positional that is still being
-     filled is not a subcommand (fixes 689b619, c6f4cbc) *)
+     filled is not a subcommand (fixes 689b619, c6f4cbc), and neither is a word that follows an argument of a
+     command whose arguments conflict with subcommands *)
   let maybe_subcommand :=
-    is_set s_sub_precedence cur
-    || negb (match current_state with Opt _ _ | Pos _ _ => true | ValueDone => false end) in
+    (is_set s_sub_precedence cur
+     || negb (match current_state with Opt _ _ | Pos _ _ => true | ValueDone => false end))
+    && negb (is_set s_args_negate_subs cur && valid_arg_found) in
   match (if maybe_subcommand && utf8_valid arg then find_subcommand cur arg else None) with
-  | Some next_cmd => SNext next_cmd 1 is_escaped ValueDone
+  | Some next_cmd => SNext next_cmd 1 is_escaped ValueDone false
   | None =>
       if is_escaped then positional
-      else if is_escape arg then SNext cur pos_index true ValueDone
+      else if is_escape arg then SNext cur pos_index true ValueDone valid_arg_found
       else if opt_allows_hyphen current_state arg then
         match current_state with
         | Opt o count => match parse_opt_value o count with
-                         | Some st => SNext cur pos_index is_escaped st
+                         | Some st => SNext cur pos_index is_escaped st valid_arg_found
                          | None => SPanic 673 end
         | _ => SPanic 69
         end
@@ -538,13 +577,13 @@ Definition shadow_step (arg : bytes) (cur : cmd) (pos_index : N) (is_escaped : b
                   match a_num o with
                   | None => SPanic 84
                   | Some r => if r_takes_values r && is_none value
-                              then SNext cur pos_index is_escaped (Opt o 1)
-                              else SNext cur pos_index is_escaped ValueDone
+                              then SNext cur pos_index is_escaped (Opt o 1) true
+                              else SNext cur pos_index is_escaped ValueDone true
                   end
               | None => if pos_allows_hyphen cur pos_index then positional
-                        else SNext cur pos_index is_escaped ValueDone
+                        else SNext cur pos_index is_escaped ValueDone valid_arg_found
               end
-            else SNext cur pos_index is_escaped ValueDone
+            else SNext cur pos_index is_escaped ValueDone valid_arg_found
         | None =>
             match to_short arg with
             | Some short =>
@@ -552,19 +591,19 @@ Definition shadow_step (arg : bytes) (cur : cmd) (pos_index : N) (is_escaped : b
                 | SFPanic => SPanic 603
                 | SFFuel => SFuel
                 | SFOk _ (Some o) short' =>
-                    if is_none (next_value_os short') then SNext cur pos_index is_escaped (Opt o 1)
-                    else SNext cur pos_index is_escaped ValueDone
+                    if is_none (next_value_os short') then SNext cur pos_index is_escaped (Opt o 1) true
+                    else SNext cur pos_index is_escaped ValueDone true
                 | SFOk flags None _ =>
                     (* known flags stay flags even if the next positional allows hyphens (fix d4a15c6) *)
                     if utf8_valid arg && forallb (has_short cur) (decode flags)
-                    then SNext cur pos_index is_escaped ValueDone
+                    then SNext cur pos_index is_escaped ValueDone true
                     else if pos_allows_hyphen cur pos_index then positional
-                    else SNext cur pos_index is_escaped ValueDone
+                    else SNext cur pos_index is_escaped ValueDone valid_arg_found
                 end
             | None =>
                 match current_state with
                 | Opt o count => match parse_opt_value o count with
-                                 | Some st => SNext cur pos_index is_escaped st
+                                 | Some st => SNext cur pos_index is_escaped st valid_arg_found
                                  | None => SPanic 673 end
                 | _ => positional
                 end
@@ -573,17 +612,17 @@ Definition shadow_step (arg : bytes) (cur : cmd) (pos_index : N) (is_escaped : b
   end.
 
 Fixpoint shadow_walk (items : list bytes) (cursor target : N) (cur : cmd) (pos_index : N)
-         (is_escaped : bool) (next_state : pstate) : walk :=
+         (is_escaped : bool) (next_state : pstate) (valid_arg_found : bool) : walk :=
   match items with
   | [] => WEnd
   | arg :: rest =>
       let cursor := sat_add cursor 1 in
-      if cursor =? target then WAt arg cur pos_index next_state is_escaped
+      if cursor =? target then WAt arg cur pos_index next_state is_escaped valid_arg_found
       else
-        match shadow_step arg cur pos_index is_escaped next_state with
+        match shadow_step arg cur pos_index is_escaped next_state valid_arg_found with
         | SPanic s => WPanic s
         | SFuel => WFuel
-        | SNext cur' pi esc st => shadow_walk rest cursor target cur' pi esc st
+        | SNext cur' pi esc st vaf => shadow_walk rest cursor target cur' pi esc st vaf
         end
   end.
 
@@ -592,14 +631,14 @@ Definition start_walk (b : cmd) (args : list bytes) (arg_index : N) : walk :=
   let len := N.of_nat (length args) in
   let target := sat_add (N.min arg_index len) 1 in
   let cursor := if is_set s_no_binary_name b then 0 else 1 in
-  shadow_walk (skipn (N.to_nat cursor) args) cursor target b 1 false ValueDone.
+  shadow_walk (skipn (N.to_nat cursor) args) cursor target b 1 false ValueDone false.
 
 Definition complete_built (tbl : pvtable) (b : cmd) (args : list bytes) (arg_index : N) : cres :=
   match start_walk b args arg_index with
   | WPanic s => CPanic s
   | WFuel => CFuel
   | WEnd => CErr
-  | WAt arg cur pi st _ => complete_arg tbl arg cur pi st
+  | WAt arg cur pi st _ vaf => complete_arg_v tbl arg cur pi st vaf
   end.
 
 (** [complete]: [cmd.build()] then the above *)
@@ -608,6 +647,104 @@ Definition complete_model (tbl : pvtable) (c : cmd) (args : list bytes) (arg_ind
   | BInvalid => CInvalid
   | BFuel => CFuel
   | BOk b => complete_built tbl b args arg_index
+  end.
+
+(** ** the loop BEFORE the repair of finding C18-args-conflict (no [valid_arg_found]; kept for the witness
+    [args_conflict_before_after]); the last component of [SNext] is unused *)
+Definition shadow_step_before_fix (arg : bytes) (cur : cmd) (pos_index : N) (is_escaped : bool) (current_state : pstate) : step :=
+  let positional :=
+    match parse_positional cur pos_index is_escaped current_state with
+    | Some (st, pi) => SNext cur pi is_escaped st false
+    | None => SPanic 673
+    end in
+  let maybe_subcommand :=
+    is_set s_sub_precedence cur
+    || negb (match current_state with Opt _ _ | Pos _ _ => true | ValueDone => false end) in
+  match (if maybe_subcommand && utf8_valid arg then find_subcommand cur arg else None) with
+  | Some next_cmd => SNext next_cmd 1 is_escaped ValueDone false
+  | None =>
+      if is_escaped then positional
+      else if is_escape arg then SNext cur pos_index true ValueDone false
+      else if opt_allows_hyphen current_state arg then
+        match current_state with
+        | Opt o count => match parse_opt_value o count with
+                         | Some st => SNext cur pos_index is_escaped st false
+                         | None => SPanic 673 end
+        | _ => SPanic 69
+        end
+      else
+        match to_long arg with
+        | Some (flag, flag_utf8, value) =>
+            if flag_utf8 then
+              match find_long_visible cur flag with
+              | Some o =>
+                  match a_num o with
+                  | None => SPanic 84
+                  | Some r => if r_takes_values r && is_none value
+                              then SNext cur pos_index is_escaped (Opt o 1) false
+                              else SNext cur pos_index is_escaped ValueDone false
+                  end
+              | None => if pos_allows_hyphen cur pos_index then positional
+                        else SNext cur pos_index is_escaped ValueDone false
+              end
+            else SNext cur pos_index is_escaped ValueDone false
+        | None =>
+            match to_short arg with
+            | Some short =>
+                match parse_shortflags cur short with
+                | SFPanic => SPanic 603
+                | SFFuel => SFuel
+                | SFOk _ (Some o) short' =>
+                    if is_none (next_value_os short') then SNext cur pos_index is_escaped (Opt o 1) false
+                    else SNext cur pos_index is_escaped ValueDone false
+                | SFOk flags None _ =>
+                    if utf8_valid arg && forallb (has_short cur) (decode flags)
+                    then SNext cur pos_index is_escaped ValueDone false
+                    else if pos_allows_hyphen cur pos_index then positional
+                    else SNext cur pos_index is_escaped ValueDone false
+                end
+            | None =>
+                match current_state with
+                | Opt o count => match parse_opt_value o count with
+                                 | Some st => SNext cur pos_index is_escaped st false
+                                 | None => SPanic 673 end
+                | _ => positional
+                end
+            end
+        end
+  end.
+
+Fixpoint shadow_walk_before_fix (items : list bytes) (cursor target : N) (cur : cmd) (pos_index : N)
+         (is_escaped : bool) (next_state : pstate) : walk :=
+  match items with
+  | [] => WEnd
+  | arg :: rest =>
+      let cursor := sat_add cursor 1 in
+      if cursor =? target then WAt arg cur pos_index next_state is_escaped false
+      else
+        match shadow_step_before_fix arg cur pos_index is_escaped next_state with
+        | SPanic s => WPanic s
+        | SFuel => WFuel
+        | SNext cur' pi esc st _ => shadow_walk_before_fix rest cursor target cur' pi esc st
+        end
+  end.
+
+Definition start_walk_before_fix (b : cmd) (args : list bytes) (arg_index : N) : walk :=
+  let len := N.of_nat (length args) in
+  let target := sat_add (N.min arg_index len) 1 in
+  let cursor := if is_set s_no_binary_name b then 0 else 1 in
+  shadow_walk_before_fix (skipn (N.to_nat cursor) args) cursor target b 1 false ValueDone.
+
+Definition complete_model_before_fix (tbl : pvtable) (c : cmd) (args : list bytes) (arg_index : N) : cres :=
+  match build_full (build_fuel c) c with
+  | BInvalid => CInvalid
+  | BFuel => CFuel
+  | BOk b => match start_walk_before_fix b args arg_index with
+             | WPanic s => CPanic s
+             | WFuel => CFuel
+             | WEnd => CErr
+             | WAt arg cur pi st _ _ => complete_arg tbl arg cur pi st
+             end
   end.
 
 (** The panic sites the model makes visible, per Rust function:
